@@ -29,21 +29,21 @@ func (c07) Cases(tier string) int {
 
 func (c07) Thresholds(tier string) map[string]int64 {
 	return map[string]int64{
-		"save-points":                      2000,
-		"restore:fresh":                    300,
-		"restore:mid-node":                 300,
-		"restore:waiting-for-choice":       200,
-		"restore:waiting-for-command":      300,
-		"restore:ended":                    300,
-		"restore:restored-before":          300,
-		"restore:donor-itself":             300,
-		"restore-crossed-jump-afterwards":  300,
-		"alias-probe-two-receivers":        300,
-		"unknown-node-restore-refused":     500,
-		"snapshot-after-jump":              400,
-		"prepopulated-store":               200,
-		"receiver-state-confirmed-by-hook": 1000,
-		"host-modified-a-taken-snapshot":   1000,
+		"save-points":                       2000,
+		"restore:fresh":                     300,
+		"restore:mid-node":                  300,
+		"restore:waiting-for-choice":        200,
+		"restore:waiting-for-command":       300,
+		"restore:ended":                     300,
+		"restore:restored-before":           300,
+		"restore:donor-itself":              300,
+		"restore-crossed-jump-afterwards":   300,
+		"alias-probe-two-receivers":         300,
+		"unknown-node-restore-refused":      500,
+		"snapshot-after-jump":               400,
+		"prepopulated-store":                200,
+		"receiver-state-confirmed-by-hook":  1000,
+		"host-modified-a-taken-snapshot":    1000,
 		"host-modified-a-restored-snapshot": 500,
 	}
 }
@@ -426,6 +426,14 @@ func (p c07) Run(c *core.Ctx) {
 			return
 		}
 		_, _, _, pending := rc.R.DR.VerifState()
+		if pending {
+			// the runner was waiting for a command that never completes: a refused restore leaves it waiting
+			if o := rc.R.Once(0); o.Kind != mon.KWaiting {
+				fail(rc, "a refused RestoreAt made a runner forget the command it was waiting for: Next returned "+o.String(), nil)
+				return
+			}
+			c.Feature("refused-restore-while-waiting-for-command")
+		}
 		if !pending && !rc.M.Broken {
 			if !continueFrom(rc, 10, "after-refused-restore", save{copy: before}) {
 				return
